@@ -152,7 +152,8 @@ Hypotheses:
 Conclusion: after the pass every registered, cached, dynamic asset holds exactly what re-evaluating
 its loader against the new source and the current cache returns (or that re-evaluation fails and the
 entry kept its previous value), and the graph holds exactly what that evaluation reads (for a failing
-one: at least what it reads); the reloader is alive. -/
+one: at least what it reads); the reloader is alive; the pass sent no message to the reloader (no
+asset was registered behind the sort's back). -/
 theorem C05_pass_converges_partial (env env' : Env) (fuel : Nat) (s : St) (r : RSt) (changed : List Dep)
     {rank : Dep → Nat}
     (hS : env.Steady) (hS' : env'.Steady) (hL : SameLoaders env env')
@@ -166,7 +167,7 @@ theorem C05_pass_converges_partial (env env' : Env) (fuel : Nat) (s : St) (r : R
     (hret : ReloadsReturn env' fuel (updateSteps env' fuel s r))
     (hrewire : NoRewireOntoPending env' fuel (updateSteps env' fuel s r)) :
     Settled env' fuel (runUpdate env' fuel s r).1 (runUpdate env' fuel s r).2.graph ∧
-    (runUpdate env' fuel s r).2.dead = false := by
+    (runUpdate env' fuel s r).2.dead = false ∧ (runUpdate env' fuel s r).1.out = s.out := by
   obtain ⟨keys, hk⟩ := topo_terminates r.graph fuel hfuel r.toReload
   unfold updateSteps at hmiss hret hrewire
   rw [hk] at hmiss hret hrewire
@@ -175,6 +176,33 @@ theorem C05_pass_converges_partial (env env' : Env) (fuel : Nat) (s : St) (r : R
   exact reloadAll_converges hS' keys s { r with toReload := [] }
     (pinv_init hS hS' hL hset hG.1 hk hfile hdir hnotified) hlive (topo_nodup hk)
     (depsFirst_of_topo hG.1 hrank hk) hmiss hret hrewire
+
+/-- **`hot_reload()` converges** (local mode, no pending `AddAsset` messages): the same statement for
+the whole request — drain the messages, run the pass, drain the messages the pass produced (none,
+under `hmiss`). The hypotheses are those of `C05_pass_converges_partial`. -/
+theorem C05_hot_reload_converges_partial (env env' : Env) (fuel : Nat) (s : St) (r : RSt) (changed : List Dep)
+    {rank : Dep → Nat}
+    (hS : env.Steady) (hS' : env'.Steady) (hL : SameLoaders env env')
+    (hset : Settled env fuel s r.graph) (hG : GraphOK r.graph)
+    (hrank : ∀ a rs b, r.graph.rdepsOf a = some rs → b ∈ rs → rank b < rank a)
+    (hlive : r.dead = false) (hfuel : r.graph.length + 1 ≤ fuel)
+    (hdrained : s.out = []) (hlocal : r.static_ = false)
+    (hfile : ∀ id ext, Dep.file id ext ∉ changed → env'.read 0 id ext = env.read 0 id ext)
+    (hdir : ∀ id, Dep.dir id ∉ changed → env'.readDir 0 id = env.readDir 0 id)
+    (hnotified : ∀ d, d ∈ changed → r.graph.get d ≠ none → d ∈ r.toReload)
+    (hmiss : NoMissInPass env' fuel (updateSteps env' fuel s r))
+    (hret : ReloadsReturn env' fuel (updateSteps env' fuel s r))
+    (hrewire : NoRewireOntoPending env' fuel (updateSteps env' fuel s r)) :
+    Settled env' fuel (hotReload env' fuel s r).1 (hotReload env' fuel s r).2.graph ∧
+    (hotReload env' fuel s r).2.dead = false := by
+  obtain ⟨h1, h2, h3⟩ := C05_pass_converges_partial env env' fuel s r changed hS hS' hL hset hG hrank hlive hfuel
+    hfile hdir hnotified hmiss hret hrewire
+  have e : hotReload env' fuel s r = runUpdate env' fuel s r := by
+    unfold hotReload
+    simp only [hlive, processMsgs_nil s r hdrained, hlocal, Bool.false_eq_true, if_false]
+    exact processMsgs_nil _ _ (h3.trans hdrained)
+  rw [e]
+  exact ⟨h1, h2⟩
 
 /-! ## Concrete instances: non-vacuity, and the two refutations of the unrestricted statement -/
 
@@ -236,7 +264,8 @@ theorem exChain_graphOK : GraphOK exChain.graph :=
 example :
     Settled (exEnv [1, 0] [20]) 10 (runUpdate (exEnv [1, 0] [20]) 10 (exSt 11 10) exChain).1
       (runUpdate (exEnv [1, 0] [20]) 10 (exSt 11 10) exChain).2.graph ∧
-    (runUpdate (exEnv [1, 0] [20]) 10 (exSt 11 10) exChain).2.dead = false :=
+    (runUpdate (exEnv [1, 0] [20]) 10 (exSt 11 10) exChain).2.dead = false ∧
+    (runUpdate (exEnv [1, 0] [20]) 10 (exSt 11 10) exChain).1.out = [] :=
   C05_pass_converges_partial (exEnv [1, 0] [10]) (exEnv [1, 0] [20]) 10 (exSt 11 10) exChain [.file "e" "s"]
     (rank := exRank) (exEnv_steady _ _) (exEnv_steady _ _) (exEnv_same _ _ _ _)
     (settled_of_check (by decide)) exChain_graphOK (rank_of_entries (by decide)) rfl (by decide)
